@@ -45,6 +45,14 @@ package interpreter
 // the era configuration objects are stateless
 //@ ifaces ^interpreter\.config\.
 //@   pure
+// the era limits are non-negative 32-bit quantities (an obligation of both configurations)
+//@ iface interpreter.config.MaxPubKeysPerMultiSig
+//@   pure
+//@   ensures[C07.limit_pubkeys_range] (and (<= 0 result) (<= result 2147483647))
+//@ func interpreter.(*afterGenesisConfig).MaxPubKeysPerMultiSig
+//@   pure
+//@ func interpreter.(*beforeGenesisConfig).MaxPubKeysPerMultiSig
+//@   pure
 
 // the opcode parser builds new parsed scripts / byte strings and writes nothing that existed before the call
 //@ ifaces ^interpreter\.OpcodeParser\.
@@ -189,6 +197,17 @@ package interpreter
 //@   opt frame-keys F:bt.Input.PreviousTxScript
 //@ func interpreter.opcodeCheckMultiSig
 //@   opt frame-keys F:bt.Input.PreviousTxScript
+//@   bytes array
+//@   opt index-fn 1
+//@   loop 1 invariant (and (<= 0 i) (<= i numPubKeys) (= (len pubKeys) i) (<= numPubKeys 2147483647))
+//@   loop 2 invariant (and (<= 0 i) (<= i numSignatures) (= (len signatures) i) (= (len pubKeys) numPubKeys) (<= numSignatures numPubKeys))
+//@   loop 2 invariant (forall ((k Int)) (=> (and (<= 0 k) (< k (len signatures))) (not (nil? (at signatures k)))))
+//@   loop 3 invariant (and (= (len signatures) numSignatures) (= (len pubKeys) numPubKeys) (<= numSignatures numPubKeys) (<= 0 numSignatures))
+//@   loop 3 invariant (forall ((k Int)) (=> (and (<= 0 k) (< k (len signatures))) (not (nil? (at signatures k)))))
+//@   loop 0 invariant (and (= (+ pubKeyIdx numPubKeys) (len pubKeys)) (= (+ signatureIdx numSignatures) (len signatures)) (>= pubKeyIdx (- 1)) (>= signatureIdx 0) (>= numSignatures 0))
+//@   loop 0 invariant (forall ((k Int)) (=> (and (<= 0 k) (< k (len signatures))) (not (nil? (at signatures k)))))
+//@   loop 0 decreases numPubKeys
+//@   loop 4 invariant (forall ((k Int)) (=> (and (<= 0 k) (< k (len signatures))) (not (nil? (at signatures k)))))
 
 // ---- stack effects of the data-stack primitives and of arithmetic opcodes (C05, partial) ----
 //@ func interpreter.(*stack).PushByteArray
